@@ -423,6 +423,28 @@ fn run_c13(ctx: &mut Ctx) {
         files.insert("t.txt.txtpp".into(), format!("-TXTPP#after {dep_dir}d.txt\ntop line\n").into_bytes());
         check_c13_requested(ctx, &files, &["t.txt".to_string()], &format!("{dep_dir}d.txt"));
     }
+    // two-pass sources: the file has a `.txtpp` dependency (so everything after the `after` line is
+    // executed in its second pass) and then includes plain files / runs commands; the option must
+    // still change nothing but the final line ending
+    let ntwo = ctx.tier.pick(400, 6000);
+    for i in 0..ntwo {
+        if !ctx.time_left() || ctx.violations.len() > 20 {
+            break;
+        }
+        let mut files = crate::gen::static_files();
+        files.insert("d.txt.txtpp".into(), b"dependency\n".to_vec());
+        let body = if i % 2 == 0 {
+            eof_source(&mut r)
+        } else {
+            let o = GenOpts { max_sources: 1, error_pct: 0, ..GenOpts::default() };
+            crate::gen::gen_source(&mut r, &o, "", &[], false, 0)
+        };
+        let le = if body.contains("\r\n") && r.gen_bool(0.5) { "\r\n" } else { "\n" };
+        let mid = ["", "-TXTPP#include inc_nonl.txt\ntext after a plain include without final newline\n", "-TXTPP#include inc_nl.txt\nx\n"][i % 3];
+        files.insert("e.txt.txtpp".into(), format!("-TXTPP#after d.txt{le}{mid}{body}").into_bytes());
+        ctx.count("two_pass_sources", 1);
+        check_c13(ctx, &files, &format!("two-pass case {i}"));
+    }
     // CLI -n mapping on a few sources
     let ncli = ctx.tier.pick(4, 60);
     for _ in 0..ncli {
@@ -504,6 +526,107 @@ fn check_identity(ctx: &mut Ctx, lines: &[String], crlf: bool, final_nl: bool, t
     if src.contains("TXTPP#") || src.contains("TAG") {
         ctx.distinct.insert(hash_str(&src));
     }
+}
+
+/// Carriage returns that are line *content*: inside a line anywhere, and at the end of a line's
+/// content in a CRLF file (`keep\r` + `\r\n`), or in a text without any LF (one line). They are not
+/// line endings and must be reproduced. (In an LF file a CR right before the LF is a CRLF ending of
+/// that line and is normalised - C12 - so it is not generated there.)
+fn check_identity_cr(ctx: &mut Ctx, r: &mut StdRng, trailing: bool) {
+    let crlf = r.gen_bool(0.6);
+    let le = if crlf { "\r\n" } else { "\n" };
+    let n = r.gen_range(1..=6);
+    let single = r.gen_bool(0.15);
+    let mut lines: Vec<String> = vec![];
+    for _ in 0..if single { 1 } else { n } {
+        let mut l = String::new();
+        for _ in 0..r.gen_range(1..4) {
+            l.push_str(["word", "x", "TXTPP#", " ", "\u{e9}", "a b"][r.gen_range(0..6)]);
+            if r.gen_bool(0.4) {
+                l.push('\r');
+            }
+        }
+        if !(crlf || single) {
+            l = l.trim_end_matches('\r').to_string();
+        } else if r.gen_bool(0.3) {
+            l.push_str(["\r", "\r\r"][r.gen_range(0..2)]);
+        }
+        if model::detect(&l).is_none() {
+            lines.push(l);
+        }
+    }
+    if lines.is_empty() || !lines.iter().any(|l| l.contains('\r')) {
+        return;
+    }
+    let final_nl = !single && r.gen_bool(0.7);
+    let mut src = lines.join(le);
+    if final_nl {
+        src.push_str(le);
+    }
+    if single {
+        // no LF anywhere: the whole text is one line, the OS default ending applies
+        src = lines[0].clone();
+    }
+    let mut files = Files::new();
+    files.insert("t.txt.txtpp".into(), src.clone().into_bytes());
+    let mut case = ProjectCase::simple(files);
+    case.trailing = trailing;
+    let res = run_project(ctx, &case);
+    ctx.count("identity_cases_with_carriage_returns_in_line_content", 1);
+    let cj = json!({"kind": "identity-cr", "source": src, "trailing": trailing});
+    if !res.outcome.verdict.is_ok() {
+        ctx.violation("C16:identity:build-failed", format!("a directive-free text failed to build: {}\ntext {src:?}", res.outcome.verdict.short()), cj);
+        return;
+    }
+    let got = res.after.files.get("t.txt").map(|e| e.bytes.clone()).unwrap_or_default();
+    // a text without any LF is a single line and gets the OS default ending
+    let want = expected_passthrough(&lines, if !src.contains('\n') { "\n" } else { le }, trailing);
+    if got != want {
+        ctx.violation("C16:identity:bytes", format!("directive-free text with carriage returns inside line content not reproduced: got {} expected {}", show(&got), show(&want)), cj);
+    }
+    ctx.distinct.insert(hash_str(&format!("cr{src}")));
+}
+
+/// history on one directory: build T, shorten the source to a strict prefix of T (or only switch
+/// the trailing-newline option off), rebuild with the only-if-needed mode: the output must be the
+/// text of the *current* source
+fn check_identity_history(ctx: &mut Ctx, lines: &[String], crlf: bool, trailing: bool, r: &mut StdRng) {
+    if lines.len() < 2 {
+        return;
+    }
+    let le = if crlf { "\r\n" } else { "\n" };
+    let root = ctx.scratch.fresh();
+    let mut files = Files::new();
+    files.insert("t.txt.txtpp".into(), join_lines(lines, crlf, true).into_bytes());
+    let mut case = ProjectCase::simple(files);
+    case.trailing = true;
+    let first = crate::props::common::run_project_at(ctx, &case, &root, false);
+    if !first.outcome.verdict.is_ok() {
+        ctx.scratch.discard(&root);
+        return;
+    }
+    let keep = r.gen_range(1..=lines.len());
+    let shorter = &lines[..keep];
+    let _ = std::fs::write(root.join("t.txt.txtpp"), join_lines(shorter, crlf, true));
+    let mut c2 = case.clone();
+    c2.mode = Mode::InMemoryBuild;
+    c2.trailing = trailing;
+    let cfg = c2.cfg(&root);
+    let o = crate::run::run_inproc(&cfg, c2.spec.clone(), Some(&root), false);
+    ctx.evals += 1;
+    ctx.count("identity_needed_histories", 1);
+    let got = std::fs::read(root.join("t.txt")).unwrap_or_default();
+    let effective: Vec<String> = model::split(&join_lines(shorter, crlf, true)).0;
+    let want = expected_passthrough(&effective, le, trailing);
+    let cj = json!({"kind": "identity-history", "lines": lines, "keep": keep, "crlf": crlf, "trailing": trailing});
+    if !o.verdict.is_ok() {
+        if !matches!(o.verdict, crate::run::Verdict::Watchdog) {
+            ctx.violation("C16:identity:build-failed", format!("needed-build of a directive-free text failed: {}", o.verdict.short()), cj);
+        }
+    } else if got != want {
+        ctx.violation("C16:identity:bytes", format!("after shortening the source to its first {keep} line(s) (trailing newline {trailing}) and a needed-build, the output is not the text of the source: got {} expected {}", show(&got), show(&want)), cj);
+    }
+    ctx.scratch.discard(&root);
 }
 
 fn check_escape(ctx: &mut Ctx, lines: &[String], crlf: bool, trailing: bool, with_tag: Option<&str>) {
@@ -634,6 +757,12 @@ fn run_c16(ctx: &mut Ctx) {
                 let final_nl = r.gen_bool(0.7);
                 check_identity(ctx, &lines, crlf, final_nl, trailing);
                 ctx.count("identity_cases", 1);
+                if i % 4 == 0 {
+                    check_identity_cr(ctx, &mut r, trailing);
+                }
+                if i % 9 == 0 {
+                    check_identity_history(ctx, &lines, crlf, trailing, &mut r);
+                }
                 if i == 0 {
                     ctx.sample(|| json!({"identity_text": lines}));
                 }
@@ -665,6 +794,18 @@ fn replay_c16(ctx: &mut Ctx, v: &Value) {
         Some("identity") => check_identity(ctx, &lines, v["crlf"].as_bool().unwrap_or(false), v["final_nl"].as_bool().unwrap_or(true), v["trailing"].as_bool().unwrap_or(true)),
         Some("escape") => check_escape(ctx, &lines, v["crlf"].as_bool().unwrap_or(false), v["trailing"].as_bool().unwrap_or(true), v["with_tag"].as_str()),
         Some("mixed") => check_mixed(ctx, v["seed"].as_u64().unwrap_or(0)),
+        Some("identity-cr") => {
+            let mut r = StdRng::seed_from_u64(11);
+            for _ in 0..300 {
+                check_identity_cr(ctx, &mut r, v["trailing"].as_bool().unwrap_or(true));
+            }
+        }
+        Some("identity-history") => {
+            let mut r = StdRng::seed_from_u64(11);
+            for _ in 0..20 {
+                check_identity_history(ctx, &lines, v["crlf"].as_bool().unwrap_or(false), v["trailing"].as_bool().unwrap_or(true), &mut r);
+            }
+        }
         Some("two-tags") => check_two_tags(ctx, v["crlf"].as_bool().unwrap_or(false), v["trailing"].as_bool().unwrap_or(true), v["middle"].as_str().unwrap_or("")),
         _ => {}
     }
